@@ -94,6 +94,114 @@ func ComputeEvaluation(x F, within uint64, arityBits uint64, evals []E, beta E) 
 	return EMul(lx, sum)
 }
 
+// RoundCtx is everything a FRI query round is checked against.
+type RoundCtx struct {
+	CD         *Common
+	Caps       [][]fr.Element // initial oracle caps: constants/sigmas, wires, zs/partial products, quotient
+	CommitCaps [][]fr.Element
+	FinalPoly  []E
+	Alpha      E
+	Betas      []E
+	Reduced    []E // reduced openings per batch
+	Points     []E // opening point per batch (zeta, g*zeta)
+}
+
+// ReducedOpenings computes the alpha-reduced opening batches and the opening points.
+func ReducedOpenings(cd *Common, os *OpeningSet, alpha, zeta E) (red, points []E) {
+	var b0 []E
+	for _, l := range [][][2]uint64{os.Constants, os.PlonkSigmas, os.Wires, os.PlonkZs, os.PartialProducts, os.QuotientPolys} {
+		b0 = append(b0, es(l)...)
+	}
+	b1 := es(os.PlonkZsNext)
+	red = []E{EReduceWithPowers(b0, alpha), EReduceWithPowers(b1, alpha)}
+	g := PrimitiveRootOfUnity(cd.FriParams.DegreeBits)
+	points = []E{zeta, EScal(zeta, g)}
+	return
+}
+
+// SubgroupX returns g * w^bitreverse(index) for the LDE domain of size 2^nLog.
+func SubgroupX(xIndex, nLog uint64) F {
+	return Mul(MultiplicativeGenerator, Exp(PrimitiveRootOfUnity(nLog), ReverseBits(xIndex, nLog)))
+}
+
+// CombineInitial computes the combined quotient value of the initial-tree evaluations at x.
+func CombineInitial(ctx *RoundCtx, rp *QueryRound, x F) E {
+	all, zsOnly := friAllPolys(ctx.CD)
+	batches := [][]polyInfo{all, zsOnly}
+	sum := EZero
+	for bi := range batches {
+		var evs []E
+		for _, pi := range batches[bi] {
+			evs = append(evs, EF(rp.InitialTreesProof.EvalsProofs[pi.oracle].Leaf[pi.idx]))
+		}
+		re := EReduceWithPowers(evs, ctx.Alpha)
+		num := ESub(re, ctx.Reduced[bi])
+		den := ESub(EF(x), ctx.Points[bi])
+		sum = EMul(sum, EExp(ctx.Alpha, uint64(len(evs))))
+		sum = EAdd(sum, EDiv(num, den))
+	}
+	return sum
+}
+
+// EvalPoly evaluates a polynomial with coefficients co at x (Horner).
+func EvalPoly(co []E, x E) E {
+	fin := EZero
+	for i := len(co) - 1; i >= 0; i-- {
+		fin = EAdd(EMul(fin, x), co[i])
+	}
+	return fin
+}
+
+// CheckQueryRound checks one FRI query round.
+func CheckQueryRound(ctx *RoundCtx, rp *QueryRound, xIndex uint64) error {
+	fp := &ctx.CD.FriParams
+	nLog := fp.DegreeBits + fp.Config.RateBits
+	if len(rp.InitialTreesProof.EvalsProofs) != 4 {
+		return fmt.Errorf("eval proofs count")
+	}
+	for t := 0; t < 4; t++ {
+		ep := &rp.InitialTreesProof.EvalsProofs[t]
+		if err := VerifyMerkle(ep.Leaf, xIndex, ctx.Caps[t], hs(ep.Proof.Siblings)); err != nil {
+			return fmt.Errorf("tree %d: %w", t, err)
+		}
+	}
+	x := SubgroupX(xIndex, nLog)
+	old := CombineInitial(ctx, rp, x)
+	idx := xIndex
+	sx := x
+	if len(rp.Steps) != len(fp.ReductionArityBits) {
+		return fmt.Errorf("steps count")
+	}
+	for si, ab := range fp.ReductionArityBits {
+		arity := uint64(1) << ab
+		evals := es(rp.Steps[si].Evals)
+		if uint64(len(evals)) != arity {
+			return fmt.Errorf("step %d: evals count", si)
+		}
+		coset := idx >> ab
+		within := idx & (arity - 1)
+		if evals[within] != old {
+			return fmt.Errorf("step %d: consistency check failed", si)
+		}
+		old = ComputeEvaluation(sx, within, ab, evals, ctx.Betas[si])
+		var flat []F
+		for _, e := range evals {
+			flat = append(flat, e[0], e[1])
+		}
+		if err := VerifyMerkle(flat, coset, ctx.CommitCaps[si], hs(rp.Steps[si].MerkleProof.Siblings)); err != nil {
+			return fmt.Errorf("step %d: %w", si, err)
+		}
+		for j := uint64(0); j < ab; j++ {
+			sx = Mul(sx, sx)
+		}
+		idx = coset
+	}
+	if EvalPoly(ctx.FinalPoly, EF(sx)) != old {
+		return fmt.Errorf("final polynomial mismatch")
+	}
+	return nil
+}
+
 func VerifyFri(cd *Common, p *ProofWithPIs, vk *VerifierOnly, ch *Challenges) error {
 	fp := &cd.FriParams
 	op := &p.Proof.OpeningProof
@@ -104,81 +212,18 @@ func VerifyFri(cd *Common, p *ProofWithPIs, vk *VerifierOnly, ch *Challenges) er
 	if uint64(len(op.QueryRoundProofs)) != fp.Config.NumQueryRounds {
 		return fmt.Errorf("query round count")
 	}
-	all, zsOnly := friAllPolys(cd)
-	os := &p.Proof.Openings
-	var b0 []E
-	for _, l := range [][][2]uint64{os.Constants, os.PlonkSigmas, os.Wires, os.PlonkZs, os.PartialProducts, os.QuotientPolys} {
-		b0 = append(b0, es(l)...)
+	if len(ch.QueryIndices) != len(op.QueryRoundProofs) {
+		return fmt.Errorf("query index count")
 	}
-	b1 := es(os.PlonkZsNext)
-	red := []E{EReduceWithPowers(b0, ch.FriAlpha), EReduceWithPowers(b1, ch.FriAlpha)}
-	g := PrimitiveRootOfUnity(fp.DegreeBits)
-	points := []E{ch.Zeta, EScal(ch.Zeta, g)}
-	batches := [][]polyInfo{all, zsOnly}
-	caps := [][]fr.Element{hs(vk.ConstantsSigmasCap), hs(p.Proof.WiresCap), hs(p.Proof.ZsCap), hs(p.Proof.QuotientCap)}
-	nLog := fp.DegreeBits + fp.Config.RateBits
+	ctx := &RoundCtx{CD: cd, FinalPoly: es(op.FinalPoly.Coeffs), Alpha: ch.FriAlpha, Betas: ch.FriBetas}
+	ctx.Reduced, ctx.Points = ReducedOpenings(cd, &p.Proof.Openings, ch.FriAlpha, ch.Zeta)
+	ctx.Caps = [][]fr.Element{hs(vk.ConstantsSigmasCap), hs(p.Proof.WiresCap), hs(p.Proof.ZsCap), hs(p.Proof.QuotientCap)}
+	for _, c := range op.CommitPhaseMerkleCaps {
+		ctx.CommitCaps = append(ctx.CommitCaps, hs(c))
+	}
 	for qi, xIndex := range ch.QueryIndices {
-		rp := &op.QueryRoundProofs[qi]
-		if len(rp.InitialTreesProof.EvalsProofs) != 4 {
-			return fmt.Errorf("round %d: eval proofs count", qi)
-		}
-		for t := 0; t < 4; t++ {
-			ep := &rp.InitialTreesProof.EvalsProofs[t]
-			if err := VerifyMerkle(ep.Leaf, xIndex, caps[t], hs(ep.Proof.Siblings)); err != nil {
-				return fmt.Errorf("round %d tree %d: %w", qi, t, err)
-			}
-		}
-		x := Mul(MultiplicativeGenerator, Exp(PrimitiveRootOfUnity(nLog), ReverseBits(xIndex, nLog)))
-		// combine initial
-		sum := EZero
-		for bi := range batches {
-			var evs []E
-			for _, pi := range batches[bi] {
-				evs = append(evs, EF(rp.InitialTreesProof.EvalsProofs[pi.oracle].Leaf[pi.idx]))
-			}
-			re := EReduceWithPowers(evs, ch.FriAlpha)
-			num := ESub(re, red[bi])
-			den := ESub(EF(x), points[bi])
-			sum = EMul(sum, EExp(ch.FriAlpha, uint64(len(evs))))
-			sum = EAdd(sum, EDiv(num, den))
-		}
-		old := sum
-		idx := xIndex
-		sx := x
-		if len(rp.Steps) != len(fp.ReductionArityBits) {
-			return fmt.Errorf("round %d: steps count", qi)
-		}
-		for si, ab := range fp.ReductionArityBits {
-			arity := uint64(1) << ab
-			evals := es(rp.Steps[si].Evals)
-			if uint64(len(evals)) != arity {
-				return fmt.Errorf("round %d step %d: evals count", qi, si)
-			}
-			coset := idx >> ab
-			within := idx & (arity - 1)
-			if evals[within] != old {
-				return fmt.Errorf("round %d step %d: consistency check failed", qi, si)
-			}
-			old = ComputeEvaluation(sx, within, ab, evals, ch.FriBetas[si])
-			var flat []F
-			for _, e := range evals {
-				flat = append(flat, e[0], e[1])
-			}
-			if err := VerifyMerkle(flat, coset, hs(op.CommitPhaseMerkleCaps[si]), hs(rp.Steps[si].MerkleProof.Siblings)); err != nil {
-				return fmt.Errorf("round %d step %d: %w", qi, si, err)
-			}
-			for j := uint64(0); j < ab; j++ {
-				sx = Mul(sx, sx)
-			}
-			idx = coset
-		}
-		fin := EZero
-		co := es(op.FinalPoly.Coeffs)
-		for i := len(co) - 1; i >= 0; i-- {
-			fin = EAdd(EMul(fin, EF(sx)), co[i])
-		}
-		if fin != old {
-			return fmt.Errorf("round %d: final polynomial mismatch", qi)
+		if err := CheckQueryRound(ctx, &op.QueryRoundProofs[qi], xIndex); err != nil {
+			return fmt.Errorf("round %d: %w", qi, err)
 		}
 	}
 	return nil
